@@ -134,6 +134,14 @@ def convBroker (b : MBroker) : UBroker := ⟨b.nodeID, b.host, b.port, b.rack⟩
 def brokerMap (bs : List MBroker) : List (Int × UBroker) :=
   goMap (bs.map fun b => (b.nodeID, convBroker b))
 
+/-- conn.go makeBrokers: an id without a listed broker is reported as a placeholder carrying the id -/
+def makeBrokers (bm : List (Int × UBroker)) (ids : List Int) : List UBroker :=
+  ids.map fun id => match bm.lookup id with | some b => b | none => { UBroker.zero with id := id }
+
+/-- one id through the same placeholder rule (`makeBrokers(brokers, id)[0]`) -/
+def brokerOrPlaceholder (bm : List (Int × UBroker)) (id : Int) : UBroker :=
+  match bm.lookup id with | some b => b | none => { UBroker.zero with id := id }
+
 /-- (*Client).Metadata -/
 def clientMetadata (res : MResponse) : UMetadata :=
   let bm := brokerMap res.brokers
@@ -144,13 +152,9 @@ def clientMetadata (res : MResponse) : UMetadata :=
     topics := res.topics.map fun t =>
       { name := t.name, internal := t.internal, error := t.error
         partitions := t.partitions.map fun p =>
-          { topic := t.name, id := p.index, leader := lookupD bm p.leader UBroker.zero
-            replicas := p.replicas.map (lookupD bm · UBroker.zero)
-            isr := p.isr.map (lookupD bm · UBroker.zero), error := p.error } } }
-
-/-- conn.go makeBrokers: an id without a listed broker is reported as a placeholder carrying the id -/
-def makeBrokers (bm : List (Int × UBroker)) (ids : List Int) : List UBroker :=
-  ids.map fun id => match bm.lookup id with | some b => b | none => { UBroker.zero with id := id }
+          { topic := t.name, id := p.index, leader := brokerOrPlaceholder bm p.leader
+            replicas := makeBrokers bm p.replicas
+            isr := makeBrokers bm p.isr, error := p.error } } }
 
 /-- conn.go ReadPartitions: which topics are asked for — the arguments, else the connection's topic, else all
 (`none` = a NULL array on the wire) -/
@@ -162,8 +166,8 @@ def readPartitionsTopics (connTopic : String) (args : List String) : Option (Lis
 def concerns (connTopic : String) (t : MTopic) : Bool := t.error != 0 && (connTopic == "" || t.name == connTopic)
 
 def convPartition (bm : List (Int × UBroker)) (t : MTopic) (p : MPartition) : UPartition :=
-  { topic := t.name, id := p.index, leader := lookupD bm p.leader UBroker.zero
-    replicas := makeBrokers bm p.replicas, isr := makeBrokers bm p.isr, error := 0 }
+  { topic := t.name, id := p.index, leader := brokerOrPlaceholder bm p.leader
+    replicas := makeBrokers bm p.replicas, isr := makeBrokers bm p.isr, error := p.error }
 
 /-- conn.go readTopicMetadatav1/v6: a topic error is reported (and ends the call) only for the connection's own
 topic, or for any topic when the connection has none; `Except.error` carries the Kafka error code -/
@@ -178,7 +182,12 @@ def readPartitions (connTopic : String) (res : MResponse) : Except Int (List UPa
 partition → committed offset -/
 def consumerOffsetsRequest (topic : UTopic) : List Int := topic.partitions.map (·.id)
 
-def consumerOffsets (fetched : List UOFPart) : List (Int × Int) :=
-  goMap (fetched.map fun p => (p.partition, p.committed))
+/-- last step of ConsumerOffsets on the user-level OffsetFetch response of the topic: a group-level error fails the
+call; a partition with an error is left out and the first such error (its partition, its code) is returned together
+with the offsets of the others (after fix C19-D31; before, errors were dropped and failed partitions read −1) -/
+def consumerOffsets (groupErr : Int) (fetched : List UOFPart) : Except Int (List (Int × Int) × Option (Int × Int)) :=
+  if groupErr != 0 then .error groupErr
+  else .ok (goMap ((fetched.filter (·.error == 0)).map fun p => (p.partition, p.committed)),
+            (fetched.find? (·.error != 0)).map fun p => (p.partition, p.error))
 
 end KV.Mappings
